@@ -61,11 +61,12 @@ TTick == Ev("Tick") /\ Tick /\ PostOk
 TCancel == Ev("Cancel") /\ Cancel(Tr[l].e) /\ PostOk
 TCancelDone == Ev("Cancel") /\ ph[Tr[l].e] \in {"fin", "unused"} /\ UNCHANGED vars /\ PostOk
 TShutdown == Ev("Shutdown") /\ Shutdown /\ PostOk
+TConnect == Ev("Connect") /\ Connect /\ PostOk
 TRecvNack == Ev("RecvNack") /\ RecvNackX(Tr[l].t, Tr[l].r, Tr[l].env, SeqToSet(Tr[l].x)) /\ PostOk
 TRecvJunk == Ev("RecvJunk") /\ RecvJunk("junk") /\ PostOk
 
 TNext == \/ TExpress \/ TAwait \/ TExpressDown \/ TRecvData \/ TValFinish \/ TValNobody \/ TFire \/ TFireNone
-         \/ TTick \/ TCancel \/ TCancelDone \/ TShutdown \/ TRecvNack \/ TRecvJunk
+         \/ TTick \/ TCancel \/ TCancelDone \/ TShutdown \/ TConnect \/ TRecvNack \/ TRecvJunk
 TSpec == TInit /\ [][TNext]_tvars
 
 Mark == TLCSet(tid, Max2(TLCGet(tid), l))
